@@ -257,9 +257,9 @@ def run(ctx: Ctx) -> None:
     # (a namespace block's scope is found or created under its parent state's scope; an extern block's scope is its
     # parent state's scope).  These are C12's R12.4 / R12.5, evaluated here under this property's id.
     from . import c12
-    from ..report import SubCtx
+    from ..report import SubCtx, run_shared
     t49 = "the scope bound to a block state is derived from the parent state's scope (namespace walk over scope trees; extern blocks alias the parent's scope)"
-    c12.run(SubCtx(ctx, {"R12.4": ("R4.9", t49), "R12.5": ("R4.9", t49)}))  # type: ignore[arg-type]
+    run_shared(ctx, c12.run, {"R12.4": ("R4.9", t49), "R12.5": ("R4.9", t49)})
 
     # ---------------------------------------------------------------- R4.v (shared with C05)
     # nesting of the delivered stream under pruning, and completeness of the call-site inventory
